@@ -160,7 +160,8 @@ type FetchCommand struct {
 
 func (cmd *FetchCommand) recvSeqNum(seqNum uint32) bool {
 	set, ok := cmd.numSet.(imap.SeqSet)
-	if !ok || !set.Contains(seqNum) {
+	// "*" stands for the largest sequence number, which we don't know
+	if !ok || (!set.Contains(seqNum) && !set.Dynamic()) {
 		return false
 	}
 
@@ -174,7 +175,8 @@ func (cmd *FetchCommand) recvSeqNum(seqNum uint32) bool {
 
 func (cmd *FetchCommand) recvUID(uid imap.UID) bool {
 	set, ok := cmd.numSet.(imap.UIDSet)
-	if !ok || !set.Contains(uid) {
+	// "*" stands for the largest UID, which we don't know
+	if !ok || (!set.Contains(uid) && !set.Dynamic()) {
 		return false
 	}
 
